@@ -18,6 +18,7 @@ func EncodeJSONFile(path string, obj interface{}) error {
 	}
 
 	defer f.Close()
+	verifIOPoint("opened", f, nil)
 
 	var formatted bytes.Buffer
 	body, err := json.Marshal(obj)
@@ -29,12 +30,15 @@ func EncodeJSONFile(path string, obj interface{}) error {
 		return err
 	}
 
+	verifIOPoint("before-write", f, formatted.Bytes())
 	if _, err := f.Write(formatted.Bytes()); err != nil {
 		return err
 	}
+	verifIOPoint("written", f, nil)
 	if err := f.Sync(); err != nil {
 		return err
 	}
+	verifIOPoint("synced", f, nil)
 
 	return nil
 }
